@@ -432,6 +432,12 @@ def replay(pid, path):
     if not b["driver_ok"]:
         print("driver does not build:\n" + b["driver_log"]); return 2
     drv = Driver()
+    rc = 0
+    if j.get("case") is not None:
+        v0 = drv.judge([{"p": pid, "fam": spec.get("fam", "?"), "case": j["case"], "impl": j.get("impl")}])[0]
+        print("recorded trace re-judged:", json.dumps(v0, default=str))
+        if v0.get("ok") is False:
+            rc = 1
     (_, w, v), = judge_specs(mod, drv, [spec])
     drv.close()
     print("spec:   ", json.dumps(spec, default=str))
@@ -439,7 +445,7 @@ def replay(pid, path):
         print("python:\n" + mod.snippet(spec))
     print("impl:   ", json.dumps(w.get("impl") if w else None, default=str))
     print("verdict:", json.dumps(v, default=str))
-    if v.get("ok") is False:
+    if v.get("ok") is False or rc:
         print(f"VIOLATION property={pid} replay={path}")
         return 1
     return 0
@@ -515,6 +521,8 @@ def run_check(pid, tier="quick", seed=0, nproc=None):
                 payload["python"] = mod.snippet(small)
             except Exception:
                 pass
+        if getattr(mod, "REPLAY_CASE", False) and w and w.get("case") is not None:
+            payload["case"] = w["case"]      # the observed trace itself (re-execution may take other runtime choices)
         path = write_replay(pid, payload)
         lines.append(f"VIOLATION property={pid} replay={path}")
         nviol += 1
